@@ -922,7 +922,7 @@ def _register():
         if prim.has_boundary:
             if prim.name in ("parallelogram", "triangle"):
                 scenario("C06", [prim.bcls + "._get_normal_direction"], configs=["any"])(normal_direction_helper_scenario(prim))
-                for ori in (("ccw", "cw") if prim.name == "parallelogram" else ()):
+                for ori in (("ccw", "cw") if (prim.name == "parallelogram" or __import__("os").environ.get("TPV_TRI")) else ()):
                     # triangle: the corner cases (two active edges) need a Cauchy-Schwarz argument the solvers do not
                     # find within the budget; not registered (C06 does not cover triangle normals)
                     p3 = type(prim)()
